@@ -10,7 +10,7 @@ from automata.fa.dfa import DFA
 from automata.fa.nfa import NFA
 
 RULE = ("random valid NFAs (1-6 states; epsilon edges and cycles, states without a row, empty target sets, unreachable "
-        "parts; 7 name pools): DFA.from_nfa under all four minify x retain_names combinations, eliminate_lambda; random "
+        "parts; 7 name pools) and two (thorough: five) counter NFAs whose subset automata have 150-300 states (judged by the NFA-vs-DFA comparator only): DFA.from_nfa under all four minify x retain_names combinations, eliminate_lambda; random "
         "valid DFAs: NFA.from_dfa. Results are judged by the proved comparators (language equality with the source over "
         "all words), validity, and for eliminate_lambda 'no empty-string key left' and 'every state reachable' "
         "(both evaluated by extracted Coq code on the implementation's result); with retain_names and no minify the "
@@ -126,9 +126,58 @@ def check_dfa(ctx, ddef, tag):
         ctx.violation("from_dfa: " + "; ".join(problems), dict(replay, problems=problems))
 
 
+def cycles_nfa_def(p, q, two_symbols):
+    """'length divisible by p or by q' (one symbol), or 'number of a divisible by p or number of b by q' with both
+    counters running (two symbols): the subset automaton has about lcm(p, q) resp. p * q states."""
+    A = [("A", i) for i in range(p)]
+    B = [("B", i) for i in range(q)]
+    trans = {"s": {"": {A[0], B[0]}}}
+    if two_symbols:
+        for i in range(p):
+            trans[A[i]] = {"a": {A[(i + 1) % p]}, "b": {A[i]}}
+        for i in range(q):
+            trans[B[i]] = {"b": {B[(i + 1) % q]}, "a": {B[i]}}
+    else:
+        for i in range(p):
+            trans[A[i]] = {"a": {A[(i + 1) % p]}}
+        for i in range(q):
+            trans[B[i]] = {"a": {B[(i + 1) % q]}}
+    return dict(states={"s"} | set(A) | set(B), input_symbols={"a", "b"} if two_symbols else {"a"}, transitions=trans,
+                initial_state="s", final_states={A[0], B[0]})
+
+
+def check_large(ctx, ndef, p, q, two):
+    """The model's own subset construction is too slow at this size; the results are judged by the proved NFA-vs-DFA
+    comparator alone (validity of both, language difference over all words) and by their state counts."""
+    n = mk_nfa(ndef)
+    st, sy = enc.Renum(enc.nfa_names(n)), enc.SymMap(n.input_symbols)
+    tn = enc.enc_nfa(n, st, sy)
+    want_states = {False: None, True: None}
+    for rn, mn in itertools.product([False, True], repeat=2):
+        r = outcome(lambda: DFA.from_nfa(n, retain_names=rn, minify=mn))
+        replay = {"kind": "from_nfa_large", "p": p, "q": q, "two": two, "retain_names": rn, "minify": mn}
+        ctx.case(("large", p, q, two, rn, mn), True)
+        if r[0] != "ok":
+            ctx.violation(f"DFA.from_nfa(retain_names={rn}, minify={mn}) raised {r[2]} on the {len(n.states)}-state counter NFA", replay)
+            continue
+        a = ctx.driver.batch([(0, 3, enc.tree([tn, enc.enc_dfa(r[1], None, sy)]))], timeout=600)[0]
+        ctx.tally("large_subset_automaton_states_%d" % len(r[1].states))
+        if a[0] != 1 or a[1] != 1 or a[2] != [1, []]:
+            w = sy.unword(a[2][1][0]) if a[2][0] == 1 and a[2][1] else None
+            conf = None if w is None else {"word": w if len(w) < 60 else f"{w[:20]}...({len(w)} symbols)",
+                                           "nfa_accepts": n.accepts_input(w), "dfa_accepts": r[1].accepts_input(w)}
+            ctx.violation(f"DFA.from_nfa(retain_names={rn}, minify={mn}) of the counter NFA ({p}, {q}, {'two symbols' if two else 'one symbol'}; "
+                          f"{len(r[1].states)} DFA states) does not have the NFA's language: comparator [valid nfa, valid dfa, diff] = {str(a)[:200]}, {conf}",
+                          dict(replay, confirm=conf))
+
+
 def run(ctx):
     ctx.rule = RULE
     rng = ctx.rng
+    # comparatively large subset automata (more than 128 and more than 256 subset states)
+    for p, q, two in ([(12, 17, False), (12, 13, True)] if ctx.tier == "quick" else
+                      [(12, 17, False), (12, 13, True), (16, 19, False), (15, 20, True), (3, 50, True)]):
+        check_large(ctx, cycles_nfa_def(p, q, two), p, q, two)
     for i in range(ctx.n(220, 4000)):
         check_nfa(ctx, gen.rand_nfa_def(rng, nmax=ctx.n(6, 8)), "random")
         if i % 2 == 0:
@@ -151,7 +200,9 @@ def run(ctx):
 
 
 def replay(ctx, case):
-    if case["kind"] in ("from_nfa", "eliminate_lambda"):
+    if case["kind"] == "from_nfa_large":
+        check_large(ctx, cycles_nfa_def(case["p"], case["q"], case["two"]), case["p"], case["q"], case["two"])
+    elif case["kind"] in ("from_nfa", "eliminate_lambda"):
         check_nfa(ctx, load_def(case["def"]), "replay")
     else:
         check_dfa(ctx, load_def(case["def"]), "replay")
